@@ -19,7 +19,10 @@ use std::time::Duration;
 
 fn theme_doc(rng: &mut Rng) -> String {
     // many d-* classes (the sets behind the injected styles), several failing elements (multi error)
-    let classes = ["d-fill-red", "d-stroke-blue", "d-text-bold", "d-grid-5", "d-grid-10", "d-hatch", "d-crosshatch-3", "d-stipple", "d-dash", "d-arrow", "d-biarrow", "d-softshadow", "d-hardshadow", "d-text-small", "d-thick", "d-surround", "d-flow", "d-dot", "d-fill-none", "d-text-ol", "d-text-largest", "d-text-smaller", "d-text-medium"];
+    let classes = ["d-fill-red", "d-stroke-blue", "d-text-bold", "d-grid-5", "d-grid-10", "d-hatch", "d-crosshatch-3", "d-stipple", "d-dash", "d-arrow", "d-biarrow", "d-softshadow", "d-hardshadow", "d-text-small", "d-thick", "d-surround", "d-flow", "d-dot", "d-fill-none", "d-text-ol", "d-text-largest", "d-text-smaller", "d-text-medium",
+        // different spellings of the same spacing, and different families with the same spacing: any order
+        // computed from a key that is not unique falls back on the order the hash set was iterated in
+        "d-grid-05", "d-grid-005", "d-hatch-3", "d-hatch-03", "d-stipple-4", "d-stipple-04", "d-grid-h-5", "d-grid-v-5", "d-crosshatch-03", "d-grid-10.0"];
     let mut s = String::from("<svg>");
     // one document in three sets its own theme / base font size: what the injected rules are computed from
     // must be this document's, whatever the process transformed before
@@ -30,7 +33,7 @@ fn theme_doc(rng: &mut Rng) -> String {
         s.push_str("/>");
     }
     for i in 0..2 + rng.below(8) {
-        let mut cl: Vec<&str> = (0..1 + rng.below(5)).map(|_| *rng.pick(&classes)).collect();
+        let mut cl: Vec<&str> = (0..1 + rng.below(6)).map(|_| *rng.pick(&classes)).collect();
         cl.dedup();
         let el = *rng.pick(&["rect", "circle", "line", "text"]);
         match el {
